@@ -4,7 +4,7 @@ import json, subprocess
 CLAIMED = {
  "C11": dict(
   technique="deterministic simulation with fault injection (seeded search over byte-stream segmentations, delays, single corruptions, server-initiated drops with client reconnects, connect-context deadlines; real ADNL client vs independent spec server; free-running -race executions with concurrent senders)",
-  text="Seeded exploration: tens of thousands of whole-connection executions per minute of the real liteclient handshake/framing code against an independently written ADNL server over a simulated TCP stream with seeded segmentation, latency and exactly one corruption per run; oracles: handshake interoperates, per-direction payload sequences are exact, nothing at or after an altered byte is ever delivered, length bounds 64..8 MiB. Exploration is the right level: the property quantifies over stream cuts, packet sequences and corruption positions, which is a fault/schedule space to sample, not a finite space to enumerate.",
+  text="Seeded exploration: tens of thousands of whole-connection executions per minute of the real liteclient handshake/framing code against an independently written ADNL server over a simulated TCP stream with seeded segmentation, latency and exactly one corruption per run; oracles: handshake interoperates, per-direction payload sequences are exact, nothing at or after an altered byte is ever delivered, length bounds 64..8 MiB. Exploration is the right level: the property quantifies over stream cuts, packet sequences and corruption positions, which is a fault/schedule space to sample, not a finite space to enumerate. Workloads, faults and oracles added after seven waves of independently written breaking changes are listed in DESIGN 5.7; which change each check catches is in DESIGN 13.1 and /verif/seeded/*/meta.json.",
   note="Trusted: the independent server's reading of the ADNL-over-TCP description (sim/adnl), golang.org/x/crypto/curve25519, SHA-256 collision freedom, Go's testing/synctest fake clock. Sampling, not proof. Recovery after a corrupted stream is not asserted (the property does not promise it).",
   ref="5.1"),
 }
